@@ -571,7 +571,7 @@ func inProcess(c *lib.Ctx) {
 	logging.SetBackend(logging.NewLogBackend(io.Discard, "", 0))
 	state = core.NewDefaultBuildState()
 
-	n := c.Scale(110, 5000)
+	n := c.Scale(110, 2500)
 	for i := 0; i < n; i++ {
 		r := c.Rng.Fork()
 		cs, ts, cl := genCfg(r), genTgt(r), genCaller(r)
@@ -1154,7 +1154,7 @@ func endToEnd(c *lib.Ctx) {
 	real, err := filepath.EvalSymlinks(plz)
 	must(err)
 	plzDir := filepath.Dir(real)
-	nh := c.Scale(10, 150)
+	nh := c.Scale(10, 100)
 	steps := c.Scale(6, 10)
 	base := e2e.Scratch("c10")
 	defer os.RemoveAll(base)
